@@ -47,15 +47,30 @@ class StepCounter:
                 self.steps = -10 ** 12      # raise once
                 raise StepBound(f"more than {self.limit} function entries in amaranth_soc; last: {q}")
 
+        def on_jump(code, offset, dest):
+            # loop iterations inside repository code that call nothing would otherwise be invisible
+            if not code.co_filename.startswith(SOC_DIR):
+                return mon.DISABLE
+            if dest > offset:
+                return None
+            self.steps += 1
+            if self.steps > self.limit:
+                self.steps = -10 ** 12
+                q = getattr(code, "co_qualname", code.co_name)
+                raise StepBound(f"more than {self.limit} function entries / backward jumps in amaranth_soc; last: {q}")
+
         mon.register_callback(self.TOOL, mon.events.PY_START, on_start)
-        mon.set_events(self.TOOL, mon.events.PY_START)
+        mon.register_callback(self.TOOL, mon.events.JUMP, on_jump)
+        mon.register_callback(self.TOOL, mon.events.BRANCH, on_jump)
+        mon.set_events(self.TOOL, mon.events.PY_START | mon.events.JUMP | mon.events.BRANCH)
         self.active = True
         return self
 
     def __exit__(self, *exc):
         mon = sys.monitoring
         mon.set_events(self.TOOL, 0)
-        mon.register_callback(self.TOOL, mon.events.PY_START, None)
+        for ev in (mon.events.PY_START, mon.events.JUMP, mon.events.BRANCH):
+            mon.register_callback(self.TOOL, ev, None)
         mon.free_tool_id(self.TOOL)
         mon.restart_events()
         self.active = False
@@ -108,6 +123,23 @@ def innermost_soc_frame(exc):
     return found
 
 
+def failing_opname(exc):
+    """Name of the bytecode instruction at which the innermost Python frame failed."""
+    import dis
+    tb = exc.__traceback__
+    last = None
+    while tb is not None:
+        last = tb
+        tb = tb.tb_next
+    try:
+        for ins in dis.get_instructions(last.tb_frame.f_code):
+            if ins.offset == last.tb_lasti:
+                return ins.opname
+    except Exception:
+        pass
+    return None
+
+
 def judge_exception(exc):
     """Return (verdict, info). verdict:
          'refusal'         explicit raise of ValueError/TypeError whose class matches the raise statement
@@ -129,6 +161,12 @@ def judge_exception(exc):
             covered, stated = True, name
             break
     info["stated"] = stated
+    op = failing_opname(exc)
+    info["failing_instruction"] = op
+    if op is not None and op not in ("RAISE_VARARGS", "RERAISE"):
+        info["why"] = (f"the exception was produced by a {op} instruction, not by a raise statement"
+                       + (f" (while building the message of the intended {stated})" if covered else ""))
+        return "internal", info
     if not covered:
         info["why"] = "no raise statement covers the failing line: the exception fell out of an ordinary expression"
         return "internal", info
